@@ -172,8 +172,12 @@ Definition set_str (upd : heap -> nat -> nat -> heap * outcome) (h : heap) (n : 
       end
   end.
 
-(* _set_tuple (_td.py:2470): a missing intermediate node is CREATED and the write becomes a rebinding one, whatever
-   [inpl] says (quirk kept: finding D75) *)
+(* _set_tuple (_td.py:2470): a missing intermediate node is created and the write becomes a rebinding one — except for
+   set_ (inplace=True), which needs an existing entry and raises KeyError (repair of D75, fixes/C07/D75.diff).
+   fixed_D75 := false gives the behaviour before the repair (the node was created whatever [inpl] said); the theorem
+   C07_set_keeps does not hold for it. *)
+Definition fixed_D75 : bool := true.
+Definition is_true (t : tri) : bool := match t with ITrue => true | _ => false end.
 Fixpoint set_tuple (upd : heap -> nat -> nat -> heap * outcome) (h : heap) (n : nat) (p : path) (val : ref) (inpl : tri)
   : heap * outcome :=
   match p with
@@ -187,6 +191,8 @@ Fixpoint set_tuple (upd : heap -> nat -> nat -> heap * outcome) (h : heap) (n : 
           | Some (RNode m) => set_tuple upd h m p' val inpl
           | Some (RLeaf _) => (h, Raised EKey)
           | None =>
+              if fixed_D75 && is_true inpl then (h, Raised EKey)
+              else
               let '(h1, m) := alloc_node h (mkNode [] false) in
               match bind h1 n k (RNode m) with
               | (h2, Done) => set_tuple upd h2 m p' val IFalse
